@@ -2,6 +2,7 @@ package resource
 
 import (
 	"context"
+	"github.com/smart-core-os/sc-golang/internal/verifhook"
 	"log"
 	"sort"
 	"sync"
@@ -156,6 +157,7 @@ func (c *Collection) Update(id string, msg proto.Message, opts ...WriteOption) (
 		}
 		return nil, err
 	}
+	verifhook.Yield("Collection.Update:before-publish")
 	changeType := types.ChangeType_UPDATE
 	if oldValue == nil || created != nil {
 		changeType = types.ChangeType_ADD
@@ -185,6 +187,7 @@ func (c *Collection) Delete(id string, opts ...WriteOption) (proto.Message, erro
 	c.mu.RLock()
 	oldVal, exists := c.byId[id]
 	c.mu.RUnlock()
+	verifhook.Yield("Collection.Delete:after-read")
 
 	for attempt := 0; attempt < 5; attempt++ {
 		if !exists {
